@@ -11,7 +11,9 @@ use serde_json::{json, Value};
 use std::io::{BufRead, Write};
 
 fn opt_cat(rng: &mut Rng, k: usize) -> Option<String> {
-    match k % 6 {
+    match k % 7 {
+        // long values: beyond any fixed comparison / encoding buffer (192, 384, 768, 1024, 4096, 65536 bytes)
+        6 => Some("L".repeat([193usize, 385, 769, 1025, 4097, 8193, 70_000][(k / 7) % 7])),
         0 => None,
         1 => Some(String::new()),
         2 => Some("footer-ascii".into()),
